@@ -102,14 +102,58 @@ type linAn struct {
 	exprs  map[ssa.Value]lin
 	stored map[string]bool // field names the function stores to (their lengths are not stable)
 	inLen  map[ssa.Value]bool
+	storesTo map[string][]*ssa.Store
+	reachMemo map[*ssa.BasicBlock]map[*ssa.BasicBlock]bool
+}
+
+// reaches: instruction from can execute before instruction to.
+func (a *linAn) reaches(from, to ssa.Instruction) bool {
+	fb, tb := from.Block(), to.Block()
+	if fb == tb {
+		fi, ti := -1, -1
+		for k, ins := range fb.Instrs {
+			if ins == from {
+				fi = k
+			}
+			if ins == to {
+				ti = k
+			}
+		}
+		if fi < ti {
+			return true
+		}
+		// later in the same block: only around a loop
+	}
+	if a.reachMemo == nil {
+		a.reachMemo = map[*ssa.BasicBlock]map[*ssa.BasicBlock]bool{}
+	}
+	m, ok := a.reachMemo[fb]
+	if !ok {
+		m = map[*ssa.BasicBlock]bool{}
+		var walk func(bb *ssa.BasicBlock)
+		walk = func(bb *ssa.BasicBlock) {
+			for _, sx := range bb.Succs {
+				if !m[sx] {
+					m[sx] = true
+					walk(sx)
+				}
+			}
+		}
+		walk(fb)
+		a.reachMemo[fb] = m
+	}
+	return m[tb]
 }
 
 func newLinAn(b *Body, fn *ssa.Function) *linAn {
 	a := &linAn{b: b, fn: fn, exprs: map[ssa.Value]lin{}, stored: map[string]bool{}}
+	a.storesTo = map[string][]*ssa.Store{}
 	allInstrs(fn, func(i ssa.Instruction) {
 		if st, ok := i.(*ssa.Store); ok {
 			if fa, ok := st.Addr.(*ssa.FieldAddr); ok {
-				a.stored[fieldName(fa.X.Type(), fa.Field)] = true
+				n := fieldName(fa.X.Type(), fa.Field)
+				a.stored[n] = true
+				a.storesTo[n] = append(a.storesTo[n], st)
 			}
 		}
 	})
@@ -134,7 +178,15 @@ func (a *linAn) accessPath(v ssa.Value, depth int) (string, bool) {
 			if !ok {
 				return "", false
 			}
-			return base + "." + fieldName(ad.X.Type(), ad.Field), true
+			fld := fieldName(ad.X.Type(), ad.Field)
+			// a field this function stores to names the same memory only while no such store can
+			// have run in between: the path is used only for loads no store to the field reaches
+			for _, st := range a.storesTo[fld] {
+				if a.reaches(st, x) {
+					return "", false
+				}
+			}
+			return base + "." + fld, true
 		case *ssa.Alloc:
 			// a local assigned exactly once
 			var vals []ssa.Value
@@ -151,6 +203,26 @@ func (a *linAn) accessPath(v ssa.Value, depth int) (string, bool) {
 			}
 		case *ssa.Parameter:
 			return "*" + ad.Name(), true
+		case *ssa.UnOp:
+			// *(loaded pointer): the pointee is stable unless this function stores through a
+			// pointer of that type
+			if ad.Op == token.MUL {
+				for _, bb := range a.fn.Blocks {
+					for _, ins := range bb.Instrs {
+						if st, ok := ins.(*ssa.Store); ok && types.Identical(st.Addr.Type(), ad.Type()) {
+							if _, isAlloc := st.Addr.(*ssa.Alloc); !isAlloc {
+								return "", false
+							}
+						}
+					}
+				}
+				if base, ok := a.accessPath(ad, depth+1); ok {
+					return base + ".*", true
+				}
+			}
+		case *ssa.IndexAddr:
+			// an element loaded once is a value of its own
+			return "val@" + x.Name(), true
 		}
 	case *ssa.Phi:
 		if x.Comment != "" {
